@@ -456,6 +456,8 @@ package semver
 // newSpan: a unit span is closed at both ends and holds exactly its one version;
 // a vector span keeps the flags it was given and has min strictly below max;
 // equal ends with an open flag give the empty span.
+//@ pred wild3(min *Version, max *Version) = min != max && len(min.num) == 3 && len(max.num) == 3 && min.num[0] != wildcard &&
+//@      !(noMarker(min, wildcard) && noMarker(max, wildcard)) && backed(min.num, &min.buf) && backed(max.num, &max.buf)
 //@ func newSpan
 //@   requires min != nil && max != nil
 //@   ensures imp(result1 == nil, result0.rank == empty || result0.rank == unit || result0.rank == vector)
@@ -465,6 +467,14 @@ package semver
 //@           result0.min != nil && result0.max == max && compare(result0.min, result0.max) < 0)
 //@   ensures imp(result1 == nil && result0.rank == empty, (minOpen || maxOpen))
 //@   ensures imp(old(noMarker(min, wildcard)) && old(noMarker(max, wildcard)), touches(&min.build, &max.build))
+//@   ensures imp(old(wild3(min, max)), touches(&min.build, &max.build, &min.num, min.num, &max.num, max.num))
+//@   ensures imp(old(wild3(min, max)), len(min.num) == 3 && samearr(min.num, old(min.num)) && len(max.num) == 3 && samearr(max.num, old(max.num)) &&
+//@           tail3(min.num[0], min.num[1], min.num[2], old(min.num[0]), old(min.num[1]), old(min.num[2]), wildcard, 0) &&
+//@           tail3(max.num[0], max.num[1], max.num[2], old(max.num[0]), old(max.num[1]), old(max.num[2]), wildcard, infinity))
+//@   ensures imp(old(wild3(min, max)), iff(result1 == nil, compare(min, max) <= 0))
+//@   ensures imp(old(wild3(min, max)) && result1 == nil,
+//@           result0.rank == ite(compare(min, max) < 0, vector, ite(minOpen || maxOpen, empty, unit)) &&
+//@           imp(result0.rank != empty, result0.minOpen == minOpen && result0.maxOpen == maxOpen && result0.min == min) && imp(result0.rank == vector, result0.max == max))
 //@   ensures imp(old(noMarker(min, wildcard)) && old(noMarker(max, wildcard)), iff(result1 == nil, compare(min, max) <= 0))
 //@   ensures imp(old(noMarker(min, wildcard)) && old(noMarker(max, wildcard)) && result1 == nil,
 //@           result0.rank == ite(compare(min, max) < 0, vector, ite(minOpen || maxOpen, empty, unit)) &&
@@ -695,6 +705,12 @@ package semver
 //@ pred noMarker(v *Version, marker value) = 1 <= len(v.num) && len(v.num) <= 3 && v.getNum(0) != marker && v.getNum(1) != marker && v.getNum(2) != marker
 //@ pred allMarker(v *Version, m value) = 1 <= len(v.num) && len(v.num) <= 3 && forall(k, 0, len(v.num), v.num[k] == m)
 //@ pred tailClosed(v *Version, m value) = len(v.num) == 3 && imp(v.num[0] == m, v.num[1] == m) && imp(v.num[1] == m, v.num[2] == m)
+//@ pred first3(o0 value, o1 value, o2 value, marker value) = ite(o0 == marker, 0, ite(o1 == marker, 1, ite(o2 == marker, 2, 3)))
+//@ pred tail3(n0 value, n1 value, n2 value, o0 value, o1 value, o2 value, marker value, fill value) =
+//@      imp(o0 == marker, n0 == fill && n1 == fill && n2 == fill) &&
+//@      imp(o0 != marker && o1 == marker, n0 == o0 && n1 == fill && n2 == fill) &&
+//@      imp(o0 != marker && o1 != marker && o2 == marker, n0 == o0 && n1 == o1 && n2 == fill) &&
+//@      imp(o0 != marker && o1 != marker && o2 != marker, n0 == o0 && n1 == o1 && n2 == o2)
 //@ func (*Version).setTail
 //@   requires v != nil
 //@   ensures imp(old(noMarker(v, marker)), touches())
@@ -702,6 +718,9 @@ package semver
 //@   ensures imp(old(marker == fill) && old(allMarker(v, marker)), touches(&v.num, v.num, &v.buf))
 //@   ensures imp(old(marker == fill) && old(allMarker(v, marker)), len(v.num) == 3 && v.num[0] == fill && v.num[1] == fill && v.num[2] == fill &&
 //@           imp(old(backed(v.num, &v.buf)), backed(v.num, &v.buf)))
+//@   ensures imp(old(len(v.num) == 3), touches(&v.num, v.num))
+//@   ensures imp(old(len(v.num) == 3), len(v.num) == 3 && samearr(v.num, old(v.num)) && cap(v.num) == old(cap(v.num)) &&
+//@           tail3(v.num[0], v.num[1], v.num[2], old(v.num[0]), old(v.num[1]), old(v.num[2]), marker, fill))
 //@   loop 0
 //@     invariant 0 <= i && forall(k, 0, i, v.getNum(k) != marker)
 //@   loop 1
@@ -712,6 +731,11 @@ package semver
 //@               touches(&v.num, old(v.num), &v.buf) && (samearr(v.num, old(v.num)) || fresh(v.num) || backed(v.num, &v.buf)) &&
 //@               n == 3 && 0 <= i && i <= 3 && 1 <= len(v.num) && len(v.num) <= 3 && i <= len(v.num) && imp(i == 3, len(v.num) == 3) && imp(i > 0, len(v.num) >= i) &&
 //@               forall(k, 0, len(v.num), v.num[k] == marker) && imp(old(backed(v.num, &v.buf)), backed(v.num, &v.buf)))
+//@     invariant imp(old(len(v.num) == 3), touches(&v.num, old(v.num)) && len(v.num) == 3 && n == 3 && samearr(v.num, old(v.num)) && cap(v.num) == old(cap(v.num)) &&
+//@               0 <= i && i <= 3 && forall(k, 0, 3, imp(k < first3(old(v.num[0]), old(v.num[1]), old(v.num[2]), marker), v.num[k] == old(v.num[k]))) &&
+//@               i >= first3(old(v.num[0]), old(v.num[1]), old(v.num[2]), marker) &&
+//@               forall(k, 0, 3, imp(first3(old(v.num[0]), old(v.num[1]), old(v.num[2]), marker) <= k && k < i, v.num[k] == fill)) &&
+//@               forall(k, 0, 3, imp(k >= i, v.num[k] == old(v.num[k]))))
 //@   property C03
 
 // Canon builds a string; it is assumed (not verified: interface dispatch into the
@@ -730,6 +754,14 @@ package semver
 //@   ensures imp(old(v.ext == nil) && old(len(v.num) <= 3), result.ext == nil && result.sys == v.sys && len(result.num) == len(v.num) && backed(result.num, &result.buf) &&
 //@           imp(old(backed(v.num, &v.buf)), result.getNum(0) == v.getNum(0) && result.getNum(1) == v.getNum(1) && result.getNum(2) == v.getNum(2)) &&
 //@           len(result.pre) == len(v.pre) && result.isPrerelease == v.isPrerelease && result.build == v.build)
+//@   property C03
+
+// IsWildcard: some number is the wildcard.
+//@ func (*Version).IsWildcard
+//@   pure
+//@   ensures imp(v == nil, !result) && imp(v != nil, result == exists(k, 0, len(v.num), v.num[k] == wildcard))
+//@   loop 0
+//@     invariant forall(k, 0, rangeidx + 1, v.num[k] != wildcard)
 //@   property C03
 
 // all: every number equals val.
@@ -849,6 +881,27 @@ package semver
 //@           numsG(result0.min, old(lo.num[0]), 0, 0) && len(result0.min.pre) == 0 && nums3(result0.max, infinity, infinity, infinity))
 //@   ensures imp(typ == tokGreater && old(lo.num[0]) + 1 < infinity, result1 == nil && result0.rank == vector && bounds(result0, false, false) &&
 //@           numsG(result0.min, old(lo.num[0]) + 1, 0, 0) && len(result0.min.pre) == 0 && nums3(result0.max, infinity, infinity, infinity))
+//@   loop 0
+//@     invariant loopframe(hi.num) && forall(k, 0, rangeidx + 1, hi.num[k] == infinity)
+//@   loop 1
+//@     invariant loopframe()
+//@   property C03
+
+// x-ranges: M.m.* and M.*.* (three positions, the wildcard fills a tail).
+//@ pred wildTail(v *Version) = v != nil && v.ext == nil && len(v.num) == 3 && backed(v.num, &v.buf) && len(v.pre) == 0 &&
+//@      0 <= v.num[0] && v.num[0] < infinity && v.num[2] == wildcard && ((0 <= v.num[1] && v.num[1] < infinity) || v.num[1] == wildcard) &&
+//@      (v.sys == NPM || v.sys == Cargo || v.sys == DefaultSystem)
+//@ func opVersionToSpan ~wild3
+//@   requires wildTail(lo)
+//@   prune
+//@   abstract (*Version).rebuildExtension
+//@   uses compare.plain.nums3 compare.plain.laws
+//@   ensures imp((typ == tokEmpty || typ == tokEqual || typ == tokTilde) && old(lo.num[1]) != wildcard, result1 == nil && result0.rank == vector && bounds(result0, false, false) &&
+//@           nums3(result0.min, old(lo.num[0]), old(lo.num[1]), 0) && len(result0.min.pre) == 0 && nums3(result0.max, old(lo.num[0]), old(lo.num[1]), infinity))
+//@   ensures imp((typ == tokEmpty || typ == tokEqual || typ == tokTilde) && old(lo.num[1]) == wildcard, result1 == nil && result0.rank == vector && bounds(result0, false, false) &&
+//@           nums3(result0.min, old(lo.num[0]), 0, 0) && len(result0.min.pre) == 0 && nums3(result0.max, old(lo.num[0]), infinity, infinity))
+//@   ensures imp(typ == tokCaret && old(lo.num[0]) > 0, result1 == nil && result0.rank == vector && bounds(result0, false, false) &&
+//@           nums3(result0.min, old(lo.num[0]), ite(old(lo.num[1]) == wildcard, 0, old(lo.num[1])), 0) && len(result0.min.pre) == 0 && nums3(result0.max, old(lo.num[0]), infinity, infinity))
 //@   loop 0
 //@     invariant loopframe(hi.num) && forall(k, 0, rangeidx + 1, hi.num[k] == infinity)
 //@   loop 1
